@@ -237,4 +237,7 @@ def check(run: Run) -> None:
 
     lm = lexmodel.build(run.project)
     bare.check_bare(run, "R09.6", lm, run.project.mod("core.emitter"))
+    from . import c05
+
+    c05.check_prepass_protection(run, "R09.7")
     check_bool_before_int(run, "R09.6", [("core.emitter", "emit_value"), ("core.constraints", "TypeConstraint.evaluate"), ("core.constraints", "RangeConstraint.evaluate"), ("core.validator", "Validator._validate_type")])
